@@ -272,12 +272,16 @@ class VLoop(asyncio.SelectorEventLoop):
         self.net.udp[port] = ep
         if reuse:
             self.net.shared.setdefault(port, []).append(ep)
+        # exactly the selector transport's schedule: connection_made and the waiter's result are queued with call_soon, the
+        # creating task is woken by the waiter one loop iteration after that (so a sibling task's failure can overtake it)
+        waiter = self.create_future()
+        self.call_soon(protocol.connection_made, ep)
+        self.call_soon(lambda: waiter.done() or waiter.set_result(None))
         try:
-            await asyncio.sleep(0)
+            await waiter
         except BaseException:
             ep.close()          # as asyncio does when the wait for connection_made is cancelled
             raise
-        protocol.connection_made(ep)
         return ep, protocol
 
 
